@@ -118,14 +118,19 @@ CLAIMED = {
         technique="Lean 4 proof (totality, lexer line bounds) + malformed-input streams against the real parser",
         ref="DESIGN.md section 8, C11"),
     "C20": dict(
-        text="Lean theorems about the reference module loader: if the root file's declarations are a split of `flat` into a tree of module files (a prefix "
-             "moved into a module, recursively to any import depth, dotted paths resolved relative to the importing file), loading the root yields the same "
-             "tree as the single file and fails exactly when it fails (split_equiv: file names only occur inside error values; errors are sticky); a missing "
-             "module file is an error naming the file; an error inside a module is wrapped in an error naming the module and citing the import line; all five "
-             "declaration lists are merged. Tie: generated schemas split into module trees on a temp directory vs their single-file twin, with injected "
-             "syntax/resolution errors and deleted files.",
-        note="Partial: arbitrary (non-prefix) declare-before-use-closed subsets need a frame lemma that is exercised but not proved.",
-        technique="Lean 4 proof (split-equivalence by induction over the module tree) + split-vs-single differential check",
+        text="Lean theorems about the reference module loader. C20_split_general: a file may import any number of modules at any positions between "
+             "its own declarations, each module again split the same way to any import depth (relation Split2; dotted paths resolved relative to "
+             "the importing file); every moved block is self-contained (mentions no type name declared before it outside the module); then loading "
+             "the root yields the same tree as the single file and fails exactly when it fails. Proof by a frame lemma (C20_frame: after a context "
+             "whose type names a block does not mention, the block elaborates to the context merged with its own result), stickiness of errors and "
+             "file names occurring only inside error values. Also: a missing module file is an error naming the file; an error inside a module is "
+             "wrapped in an error naming the module and citing the import line; all five declaration lists are merged. Tie: generated schemas "
+             "split into module trees on a temp directory (nested prefixes, independent clusters with namesake files in different directories and "
+             "depths, bindings/devices moved away from their structs) vs their single-file twin, with injected syntax / resolution / semantic "
+             "errors and deleted files; the first citation of an error raised in a module must be the module.",
+        note="The theorem is about the reference loader; its agreement with the real parser is the correspondence. Error *values* are compared "
+             "by the tie only (the theorem speaks of success/failure and the tree).",
+        technique="Lean 4 proof (split-equivalence in general position via a frame lemma, induction over the module tree) + split-vs-single differential check",
         ref="DESIGN.md section 8, C20"),
     "C03": dict(
         text="Lean theorems: `Cpp.cppEnc`/`Cpp.cppDec` model the generated Encode/Decode members (same composition over the type tree as the "
